@@ -414,6 +414,7 @@ func (t *tlcreate) do(cs *connState, uid UID) (*rlcreate, error) {
 	}
 
 	// Replace the fid reference.
+	verifPoint(cs.server, "tlcreate:created")
 	cs.InsertFID(t.fid, newRef)
 
 	return &rlcreate{rlopen: rlopen{QID: qid, IoUnit: ioUnit}}, nil
